@@ -23,17 +23,54 @@ fn main() {
     let cmd = args.get(1).map(|s| s.as_str()).unwrap_or("");
     match cmd {
         "corr" => {
-            // corr <unit> <tier> <seed>
-            let unit = &args[2];
-            let tier = &args[3];
+            // corr <unit> <tier> <seed>; a watchdog turns 25 s of silence into a reported hang
+            let unit = args[2].clone();
+            let tier = args[3].clone();
             let seed: u64 = args[4].parse().unwrap();
+            let (tx, rx) = std::sync::mpsc::channel::<Option<String>>();
+            std::thread::spawn(move || {
+                struct ChanWriter(std::sync::mpsc::Sender<Option<String>>, Vec<u8>);
+                impl Write for ChanWriter {
+                    fn write(&mut self, buf: &[u8]) -> std::io::Result<usize> {
+                        self.1.extend_from_slice(buf);
+                        while let Some(i) = self.1.iter().position(|b| *b == b'\n') {
+                            let line: Vec<u8> = self.1.drain(..=i).collect();
+                            self.0.send(Some(String::from_utf8_lossy(&line[..line.len() - 1]).into_owned())).ok();
+                        }
+                        Ok(buf.len())
+                    }
+                    fn flush(&mut self) -> std::io::Result<()> {
+                        Ok(())
+                    }
+                }
+                let mut o = units::Out { w: Box::new(ChanWriter(tx.clone(), vec![])), n: 0 };
+                let ok = units::run_unit(&unit, &mut o, &tier, seed);
+                drop(o);
+                tx.send(if ok { None } else { Some("__UNKNOWN_UNIT__".into()) }).ok();
+            });
             let stdout = std::io::stdout();
-            let mut o = units::Out { w: Box::new(BufWriter::new(stdout.lock())), n: 0 };
-            if !units::run_unit(unit, &mut o, tier, seed) {
-                eprintln!("unknown unit {}", unit);
-                std::process::exit(2);
+            let mut w = BufWriter::new(stdout.lock());
+            let (mut n, mut last) = (0u64, String::new());
+            loop {
+                match rx.recv_timeout(std::time::Duration::from_secs(25)) {
+                    Ok(Some(l)) if l == "__UNKNOWN_UNIT__" => {
+                        eprintln!("unknown unit");
+                        std::process::exit(2);
+                    }
+                    Ok(Some(l)) => {
+                        n += 1;
+                        last = l.split('\t').next().unwrap_or("").to_string();
+                        writeln!(w, "{}", l).unwrap();
+                    }
+                    Ok(None) => break,
+                    Err(_) => {
+                        w.flush().unwrap();
+                        eprintln!("HANG after {} cases; last completed request: {}", n, last);
+                        std::process::exit(3);
+                    }
+                }
             }
-            o.w.flush().unwrap();
+            w.flush().unwrap();
         }
         "falsify" => {
             // falsify <pid> <tier|replay> <seed> <corpus|->   (extra inputs on stdin)
